@@ -379,15 +379,22 @@ Example any_after_optional_explicit :
      = Ok (DV (TSeq [(Opt, TImp (mkTag Ctx false 0) TInt); (Req, TAny)]) (VRec [Some (VInt 5); Some (VAny [5; 0])]), []).
 Proof. vm_compute. repeat split; reflexivity. Qed.
 
-(* (2) an untagged ANY as alternative of an untagged CHOICE: the CHOICE decoder re-enters the item decoder after the
-   header was read, the marked position is reset there, and the ANY comes back without its header octets *)
-Example any_alternative_loses_header :
+(* (2) an untagged ANY as alternative of an untagged CHOICE: formerly the ANY came back without its header octets (the
+   marked position was reset when the CHOICE decoder re-entered the item decoder); since the repair of the library the
+   element-start mark is kept on re-entry and the round trip holds on this input.  The case stays outside [stage3_ty]
+   (the empty key of the ANY is refused by [keys_ok]): the ANY is the catch-all of the tag map, so it also takes the
+   outer tag of an EXPLICIT-tagged sibling, as in (1) - see the last line. *)
+Example any_alternative_keeps_header :
   let T := TChoice [TInt; TAny] in
   stage3_ty false BER T = false
   /\ encode BER true 0 T (VChoice 1 (VAny [5; 0])) = Ok [5; 0]
-  /\ decode BER (Some T) [5; 0] = Ok (DV T (VChoice 1 (VAny [])), [])
-  /\ abs T (VChoice 1 (VAny [])) <> abs T (VChoice 1 (VAny [5; 0])).
-Proof. vm_compute. repeat split; try reflexivity; discriminate. Qed.
+  /\ decode BER (Some T) [5; 0] = Ok (DV T (VChoice 1 (VAny [5; 0])), [])
+  /\ decode DER (Some T) [4; 129; 1; 9] = Ok (DV T (VChoice 1 (VAny [4; 129; 1; 9])), [])
+  /\ decode BER (Some T) [2; 1; 7] = Ok (DV T (VChoice 0 (VInt 7)), [])
+  /\ (let T2 := TChoice [TExp (mkTag Ctx false 0) TInt; TAny] in
+      encode BER true 0 T2 (VChoice 0 (VInt 5)) = Ok [160; 3; 2; 1; 5]
+      /\ decode BER (Some T2) [160; 3; 2; 1; 5] = Ok (DV T2 (VChoice 1 (VAny [160; 3; 2; 1; 5])), [])).
+Proof. vm_compute. repeat split; reflexivity. Qed.
 
 (* what the non-emptiness condition on a present OPTIONAL component excludes: contents that are empty and either
    constructed (SEQUENCE / SET with nothing to write, SEQUENCE OF / SET OF without elements: defect F24) or not framed
